@@ -1367,18 +1367,20 @@ Definition frame (st0 st : state) : Prop :=
   s_last st = s_last st0 /\ s_lastproc st = s_lastproc st0 /\ s_queue st = s_queue st0 /\ s_acc_h st = s_acc_h st0 /\
   s_parsed st = s_parsed st0 /\ s_pref st = s_pref st0 /\
   (forall h, o_id (obj_of st h) = o_id (obj_of st0 h)) /\
-  (forall h, o_accepted (obj_of st h) = o_accepted (obj_of st0 h)).
+  (forall h, o_accepted (obj_of st h) = o_accepted (obj_of st0 h)) /\
+  lenN (s_objs st) = lenN (s_objs st0).
 
 Lemma frame_refl st : frame st st.
 Proof. unfold frame. repeat split; reflexivity. Qed.
 
 Lemma frame_mark_verified st0 st h : frame st0 st -> frame st0 (mark_verified h st).
 Proof.
-  unfold frame. intros (A1 & A2 & A3 & A4 & A5 & A6 & A7 & A8 & A9 & A10 & A11 & A12 & A13 & A14 & A15).
+  unfold frame. intros (A1 & A2 & A3 & A4 & A5 & A6 & A7 & A8 & A9 & A10 & A11 & A12 & A13 & A14 & A15 & A16).
   repeat split; try assumption.
   - intros x. rewrite oid_mark_verified. apply A14.
   - intros x. rewrite <- A15. unfold mark_verified, obj_of. cbn [s_objs set_objs]. rewrite nthN_setN.
     destruct (h =? x) eqn:E; [|reflexivity]. apply N.eqb_eq in E. subst x. destruct (nthN (s_objs st) h); reflexivity.
+  - rewrite lenN_mark_verified. exact A16.
 Qed.
 
 Lemma frame_get_block st0 st b : frame st0 st -> get_block st b = get_block st0 b.
